@@ -113,7 +113,7 @@ PROPS["C20"] = P(["height"],
     assumptions=["only the functions of block_watcher.rs write the height cell (field is private to the module)"])
 
 PROPS["C18"] = P(["tlv_dec", "tlv_enc"],
-    "Proof (Verus, unbounded loop invariant): get_compact_size, SerializedTlvStream::from_bytes and try_from(Vec<u8>) as extracted from src/tlv.rs are total (every bytes::Buf getter's remaining-length precondition is discharged: no panic on any byte string) and return exactly parse(bytes) of the BigSize/TLV spec functions in specs/tlv_spec.rs. Encoder: put_compact_size appends exactly cs_enc(x) (minimal BigSize), to_bytes returns the concatenation of the record encodings (loop invariant), and lemma_cs_roundtrip proves cs_dec(cs_enc(x) ++ rest) == (x, len) for all u64. The record-sequence round trip parse(enc_all(es)) == es was attempted as a lemma and is NOT proved (rlimit; kept under notes/unfinished).",
+    "Proof (Verus, unbounded loop invariant): get_compact_size, SerializedTlvStream::from_bytes and try_from(Vec<u8>) as extracted from src/tlv.rs are total (every bytes::Buf getter's remaining-length precondition is discharged: no panic on any byte string) and return exactly parse(bytes) of the BigSize/TLV spec functions in specs/tlv_spec.rs. Encoder: put_compact_size appends exactly cs_enc(x) (minimal BigSize), to_bytes returns the concatenation of the record encodings (loop invariant), and lemma_cs_roundtrip proves cs_dec(cs_enc(x) ++ rest) == (x, len) for all u64. Lemmas (checked on every run): lemma_parse_of_encoding: parse(enc_all(es)) == Some(es) for every record sequence (encode-then-decode reproduces the records), lemma_decode_then_encode: for every byte string that is an encoding (valid, minimally encoded stream) decoding then encoding reproduces the bytes. Composed with from_bytes == parse and to_bytes == enc_all this is the lossless clause for the real functions.",
     "Trusted: " + TB_COMMON + " env/bytes.rs (mirror of bytes::Buf: big-endian getters, panic preconditions), AsRef view, 64-bit usize. get_tu64 is under an assumed contract in this unit (slice-range copy_from_slice / from_be_bytes are outside Verus' subset).",
     assumptions=["env/bytes.rs describes bytes-1.6 Buf for &[u8], Bytes and Take<Bytes>", "64-bit target"],
     bounded=[])
